@@ -200,6 +200,13 @@ def parse_kani_output(out):
 
 
 def run_set(set_name, harness_names=None, jobs=None, timeout=3600, playback=False, extra_args=()):
+    # the scratch copy lives at a fixed path per set (so that cargo's cache in the shared target directory is reused) and
+    # every Kani run uses all cores: one Kani run at a time, also across concurrently running checks of other properties
+    with scratch.cargo_lock("target-kani"):
+        return _run_set(set_name, harness_names, jobs, timeout, playback, extra_args)
+
+
+def _run_set(set_name, harness_names=None, jobs=None, timeout=3600, playback=False, extra_args=()):
     cfg = SETS[set_name]()
     names = harness_names or list(HARNESSES[set_name])
     jobs = jobs or min(16, max(1, len(names)))
@@ -320,7 +327,8 @@ def native_replay(set_name, harness, byte_vectors):
         sc.write(cfg["append_to"], mod, append=True)
         cmd = ["cargo", "test", "--offline", "-p", cfg["package"], "--lib", "--", "verif_replay_counterexample", "--nocapture"]
         try:
-            p = subprocess.run(cmd, cwd=sc.repo, env=scratch.cargo_env("target-replay"), capture_output=True, text=True, timeout=1500)
+            with scratch.cargo_lock("target-replay"):
+                p = subprocess.run(cmd, cwd=sc.repo, env=scratch.cargo_env("target-replay"), capture_output=True, text=True, timeout=1500)
             both = p.stdout + p.stderr
             out = p.stdout[-3000:] + "\n--- stderr (tail) ---\n" + p.stderr[-3000:]
             # an ordinary panic fails the test; a violated unsafe precondition (debug build) aborts the process without unwinding
